@@ -50,13 +50,38 @@ func runC15(c *core.Ctx) {
 	if r.Chance(1, 2) {
 		n = r.Range(0, 40)
 	}
+	big := c.Index%25 == 7
+	if big {
+		n = r.Range(8192, 20000) | r.Intn(2) // odd and even lengths beyond 8192 and 16384
+		c.Count("inputs_beyond_8192_elements", 1)
+	}
 	// duplicate density: universe size
 	u := []int{1, 2, 3, n/4 + 1, n + 1, 1 << 30}[r.Intn(6)]
+	if big && u < 4 {
+		u = n + 1
+	}
 	keys := make([]int, n)
 	for i := range keys {
 		keys[i] = r.Intn(u) - u/2
 	}
-	switch r.Intn(6) {
+	shape := r.Intn(6)
+	if big {
+		shape = []int{0, 1, 1, 6, 6, 7, 5}[r.Intn(7)]
+	}
+	switch shape {
+	case 6: // strictly descending / ascending distinct values
+		for i := range keys {
+			keys[i] = n - i
+		}
+		if r.Bool() {
+			for i := range keys {
+				keys[i] = i
+			}
+		}
+	case 7: // two blocks, each ascending, every value of the second block below the first block
+		for i := range keys {
+			keys[i] = (i + n/2) % n
+		}
 	case 0:
 		sort.Ints(keys)
 	case 1:
